@@ -39,6 +39,10 @@ CHECKS = {
    technique="deterministic simulation: seeded schedules and thread faults over the real package builder; invariants during the run (no panic, no lock time-out, bounded simulated time, each module analysed once) and execution of the produced .pyc",
    text="Seeded exploration of generated import graphs (DAG, chain, diamond, fan-out, self-import, 2-/3-cycles, shared-node cycles) under seeded schedules: every run must terminate (panic, signal, lock time-out, simulated-time cap and step cap are violations), analyse each module exactly once, report no error for an error-free project, and the program must print every module tag once and the checksum the generator computed.",
    note="Liveness is bounded simulated time (600 s cap) - never 'within K steps while faults flow'; cycle members are generated in the style of tests/should_ok/cyclic (richer cycles are a listed known finding); trusted: simrt, orchestrator, generator's own arithmetic."),
+ "C25": dict(engine="simio", level="fault_enumeration", design="4 C25",
+   technique="deterministic simulation of the client/server byte stream: seeded short reads/writes on both sides, EINTR, peer stall; exhaustive enumeration of all cut patterns of short frames; results checked against inputs by unique tags",
+   text="Layer 1 enumerates every split of every frame of <= 12 wire bytes (2^(n-1) cut patterns) for both the Rust and the Python MessageStream and adds seeded splits/EINTR for frames up to 210 KB (sizes massed at 65534-65537). Layer 2 runs REPL histories (1-12 inputs, 0-200 KB sources and outputs) through the real DummyVM client and the real repl_server.py in lock-step under seeded split/EINTR/stall sequences: every input must get exactly its own result, in order.",
+   note="No loss/duplication/reordering (TCP); EINTR only on the Rust side; expected strings from templates calibrated on five small inputs; trusted: py/repl_node.py's fake socket module, the harness's byte queues."),
  "C28": dict(engine="simthread", level="exploration", design="4 C28",
    technique="deterministic simulation of the whole language server (about 30 threads) under seeded schedules and thread faults; reference-document oracle (UTF-16 model) after every notification",
    text="Seeded exploration: notification histories (1-3 documents with ASCII/BMP/astral text, 1-30 didChange notifications of 1-3 range changes, requests in flight, think-times around the 500 ms poll) are dispatched to the real server under one seeded schedule each; after every notification and at quiescence the server's FileCache and VFS copies must equal the client's document; no thread may panic, no lock may time out, and a closing request must be answered within 5 s of simulated time.",
@@ -57,7 +61,6 @@ def main():
     hooks = [c.split()[0] for c in commits if " verif hook:" in c]
     claimed = [c for c in sorted(CHECKS) if os.environ.get("ONLY") is None or c in os.environ["ONLY"].split(",")]
     pending = {"C15": "claimed in DESIGN.md (simio: stored-image faults); check not built yet in this commit",
-               "C25": "claimed in DESIGN.md (simio: stream faults); check not built yet in this commit",
                }
     na = dict(NA)
     for k, v in pending.items():
